@@ -499,7 +499,7 @@ Section Proofs.
 
   (* ------------------------------------------------------------------------------------------------
      datasets_answered (partial): a dataset request is answered - PROVIDED the encoded dataset fits one segment.
-     makeStatusDataset gives up above 8000 bytes and then nothing is sent (known finding, see answered_refuted). *)
+     a dataset that does not fit one Data packet is not delivered (known finding, see answered_refuted). *)
   Ltac eval_comp_is H :=
     repeat match type of H with
     | context [comp_is (gcomp ?a) ?b] =>
@@ -639,12 +639,12 @@ Section Proofs.
 End Proofs.
 
 (* ---- datasets_answered is refuted for the pinned code as soon as a dataset exceeds one segment ----
-   Whatever the codec is, a RIB dataset takes at least 4 bytes per entry; an honest "fits" test therefore says no for a RIB
-   of 2001 entries (it says no far earlier: from about 180 routes in the implementation), and the request goes unanswered. *)
+   Whatever the codec is, a RIB dataset takes at least 4 bytes per entry; an honest "fits" test (one Data packet of at most
+   MaxNDNPacketSize bytes) therefore says no for a RIB of 2201 entries (it says no far earlier: from about 180 routes in the implementation), and the request goes unanswered. *)
 Definition rib_ds_size_lb (t : ribT) : N := 4 * N.of_nat (length t).
 Definition honest_fits (fits : dataset -> bool) : Prop :=
-  forall t, fits (DRib t) = true -> rib_ds_size_lb t <= k_dataset_max_bytes.
-Definition big_rib : ribT := map (fun i => ([gcomp [N.of_nat i]], [Build_route 2 0 0 1 None])) (seq 0 2001).
+  forall t, fits (DRib t) = true -> rib_ds_size_lb t <= k_max_ndn_packet_size.
+Definition big_rib : ribT := map (fun i => ([gcomp [N.of_nat i]], [Build_route 2 0 0 1 None])) (seq 0 2201).
 Definition big_state : state := Build_state big_rib [] initial_strat 1024 [].
 Definition rib_list_cmd : cmd := Build_cmd 2 (local_prefix ++ [gcomp w_rib; gcomp w_list]) None 0 QErr.
 
